@@ -699,3 +699,90 @@ Lemma parse_top : forall n : wnode,
 Proof. exact parse_top_nb. Qed.
 
 Print Assumptions parse_top.
+
+(* ---------------------------------------------------------------- a top-level name that may hold colons *)
+
+(* the header text again: a name with colons is still a balanced quoted text *)
+Lemma head_ok_c : forall id nm ty, headok_top id nm ty = true -> nobrace id = true -> nobrace ty = true ->
+  bt_scan (BText (R (head_text id nm ty))) (Some qst0) = Some qst0.
+Proof.
+  intros id nm ty H Hi Ht. destruct (headok_top_parts _ _ _ H) as [[Pi _] [Pn [Pt _]]].
+  rewrite nobrace_allc in Hi, Ht.
+  pose proof (allc_and plain_char nbc id Pi Hi) as Qi. pose proof (allc_and plain_char nbc ty Pt Ht) as Qt.
+  destruct nm as [s|].
+  - assert (H1 : allc nqb (id ++ ":") = true) by cls.
+    assert (H3 : allc nqb (":" ++ ty ++ " ") = true) by cls.
+    destruct (nqb_atomic _ H1) as [A1 A2]. destruct (quoted_atomic ["{"; "}"]%char s Pn eq_refl) as [B1 B2].
+    destruct (nqb_atomic _ H3) as [C1 C2].
+    unfold head_text, qname.
+    replace (id ++ ":" ++ (dq ++ s ++ dq) ++ ":" ++ ty ++ " ") with ((id ++ ":") ++ (dq ++ s ++ dq) ++ (":" ++ ty ++ " "))
+      by (rewrite !sapp_assoc; reflexivity).
+    unfold R. rewrite (repr_body_app SQ (id ++ ":")), (repr_body_app SQ (dq ++ s ++ dq)).
+    apply text_ok.
+    + rewrite UmlBlobFields.free_of_app, A1, A2, UmlBlobFields.free_of_app, B1, B2, C1. reflexivity.
+    + rewrite UmlBlobFields.scan_app, A2, UmlBlobFields.scan_app, B2. exact C2.
+  - apply nqb_ok. unfold head_text, qname. cls.
+Qed.
+
+(* the parts of wf_top: the header, the tail, the items *)
+Lemma wf_top_parts : forall id nm ty its tl, wf_top (WNode id nm ty its tl) = true ->
+  headok_top id nm ty = true /\ headok id None ty = true /\ wsok tl = true /\ forallb wf_item its = true.
+Proof.
+  intros id nm ty its tl H. unfold wf_top in H. apply andb_true_iff in H. destruct H as [Hh Hw].
+  rewrite wf_node_eq in Hw. apply andb_true_iff in Hw. destruct Hw as [Hw Hi]. apply andb_true_iff in Hw. destruct Hw as [H0 Ht].
+  repeat split; assumption.
+Qed.
+
+Lemma top_ok_c : forall n, wf_top n = true -> nbq_node n = true -> bts_ok (top_bts n) = true.
+Proof.
+  intros [id nm ty its tl] Hw Hn. destruct (wf_top_parts _ _ _ _ _ Hw) as [Hh [H0 _]].
+  unfold wf_top in Hw. apply andb_true_iff in Hw. destruct Hw as [_ Hw0].
+  rewrite nbq_node_eq in Hn. apply andb_true_iff in Hn. destruct Hn as [Hn Hits].
+  apply andb_true_iff in Hn. destruct Hn as [Hn Hty]. apply andb_true_iff in Hn. destruct Hn as [Hid _].
+  assert (Hn0 : nbq_node (WNode id None ty its tl) = true).
+  { rewrite nbq_node_eq, Hid, Hty, Hits. reflexivity. }
+  pose proof (node_ok _ Hw0 Hn0) as K. unfold ok_spec in K. rewrite node_bts_eq in K. cbn [bts_scan] in K.
+  rewrite (head_ok id None ty H0 Hid Hty) in K.
+  unfold bts_ok, top_bts. cbn [bts_scan].
+  change (bt_scan (BText (String "b" (String SQ ""))) (Some qst0)) with (Some qst0).
+  rewrite bts_scan_app, node_bts_eq. cbn [bts_scan]. rewrite (head_ok_c id nm ty Hh Hid Hty), K. reflexivity.
+Qed.
+
+Lemma top_sem_c : forall n, wf_top n = true -> sem (top_bts n) = Some (top_pv_c n).
+Proof.
+  intros [id nm ty its tl] Hw. destruct (wf_top_parts _ _ _ _ _ Hw) as [Hh [_ [Ht Hi]]].
+  assert (Hc : Forall sem_spec (children_of its)).
+  { apply Forall_forall. intros x Hx. apply node_sem.
+    exact (proj1 (Forall_forall _ _) (wf_items_children its Hi) x Hx). }
+  unfold top_bts, sem. rewrite node_bts_eq, frame0_mk. cbn [app bts_frame]. rewrite !bt_frame_text.
+  rewrite (block_sem _ _ _ (body_sem its tl Hi Ht Hc)), add_child_mk, bt_frame_text, finalize_mk. cbn [append].
+  unfold R. rewrite (values_header_top_c id nm ty Hh). reflexivity.
+Qed.
+
+(* the top-level name may hold colons (the reader then splits the header at them: top_head) *)
+Theorem parse_top_c : forall n : wnode,
+  wf_top n = true -> nbq_node n = true -> quote_ok (print_node n) = true ->
+  parse_blob (py_str_bytes (print_node n)) = Some (top_pv_c n).
+Proof.
+  intros n Hw Hn Hq. rewrite (top_print n Hq), (parse_blob_sem _ (top_ok_c n Hw Hn)). exact (top_sem_c n Hw).
+Qed.
+
+Print Assumptions parse_top_c.
+
+Lemma wf_node_wf_top : forall n, wf_node n = true -> wf_top n = true.
+Proof.
+  intros [id nm ty its tl] H. unfold wf_top. rewrite wf_node_eq in H.
+  apply andb_true_iff in H. destruct H as [H Hi]. apply andb_true_iff in H. destruct H as [Hh Ht].
+  rewrite (headok_headok_top _ _ _ Hh), wf_node_eq, Ht, Hi.
+  assert (H0 : headok id None ty = true).
+  { destruct nm as [s|]; [|exact Hh]. unfold headok in Hh |- *. split_and.
+    repeat match goal with E : _ = true |- _ => rewrite E; clear E end. reflexivity. }
+  rewrite H0. reflexivity.
+Qed.
+
+Lemma top_pv_c_plain : forall id nm ty its tl, headok id nm ty = true ->
+  top_pv_c (WNode id nm ty its tl) = top_pv (WNode id nm ty its tl).
+Proof. intros id nm ty its tl H. unfold top_pv_c, top_pv. rewrite (top_head_plain _ _ _ H). reflexivity. Qed.
+
+Print Assumptions wf_node_wf_top.
+Print Assumptions top_pv_c_plain.
